@@ -35,6 +35,13 @@ def make_body(n: int, content: str, seed: int):
         return b
     if content == "random":
         return hashlib.shake_256(seed.to_bytes(8, "big")).digest(n)
+    if content == "bom":
+        # text that starts with a byte order mark (U+FEFF as EF BB BF) and has another one after the first line
+        if n < 6:
+            return (b"\xef\xbb\xbf" + b"ab")[:n] if n >= 3 else b"ab"[:n]
+        rest = make_body(n - 6, "text", seed).decode("utf-8")
+        head, sep, tail = rest.partition("\n")
+        return ("\ufeff" + head + sep + "\ufeff" + tail).encode("utf-8")
     # multi-byte text, cut to n bytes on a character boundary then padded with ASCII
     if content == "crlf":
         unit = "line\r\nwith CR\rand é\n"
@@ -49,6 +56,7 @@ def make_body(n: int, content: str, seed: int):
 
 
 METAS = ["text/gemini", "application/octet-stream", "text/plain; charset=utf-8", "",
+         "text/gemini; lang=" + "x" * (1024 - 18), "text/gemini; lang=" + "x" * (1023 - 18), "text/gemini; lang=" + "\u00e9" * 503,
          "text/plain; charset=iso-8859-1", "text/gemini; charset=utf-16", "text/gemini; lang=fr"]
 
 
@@ -63,7 +71,7 @@ def case_st(maxn):
     def build():
         return st.fixed_dictionaries({
             "n": length_st(maxn),
-            "content": st.sampled_from(["pattern", "random", "text"]),
+            "content": st.sampled_from(["pattern", "random", "text", "bom"]),
             "as_str": st.booleans(),
             "reader": st.sampled_from(["drain", "slow", "slow1", "halfclose", "halfclose-slow"]),
             "seed": st.integers(0, 2**32),
@@ -171,7 +179,7 @@ def _static_root():
 def static_case_st():
     return st.fixed_dictionaries({
         "n": length_st(600_000),
-        "content": st.sampled_from(["pattern", "text", "crlf"]),
+        "content": st.sampled_from(["pattern", "text", "crlf", "bom"]),
         "stall": st.sampled_from([0, 1, 8, 20, 28]),           # virtual seconds the reader stalls before draining
         "backend": st.sampled_from(["stdlib", "pyopenssl"]),
         "tls": st.sampled_from(["1.3", "1.2"]),
@@ -278,8 +286,8 @@ def run_history(case: dict):
         cur_t = base_t
         served = 0
         for i, stp in enumerate(case["steps"]):
-            body = make_body(stp["n"], "text", 0)
-            if stp["n"]:
+            body = make_body(stp["n"], "bom" if stp["variant"] == 3 else "text", 0)
+            if stp["n"] and stp["variant"] != 3:
                 body = bytes([0x41 + stp["variant"]]) + body[1:]
             if stp["how"] == "replace" or not os.path.exists(path):
                 tmp = path + ".new"
